@@ -4,7 +4,9 @@ import vlib, gen_conv, docs, sdref
 from vlib import hx, unhx, case_line, show
 
 THEOREMS = ["C02_tables", "C02_strings_frame", "C02_bools_frame", "C02_all_strings_frame", "C02_pinned_refuted", "C02_volume_pinned_refuted",
-            "C02_container_string_key_frame", "C02_container_list_key_frame", "C02_container_bool_key_frame", "C02_frame_example"]
+            "C02_container_string_key_frame", "C02_container_list_key_frame", "C02_container_bool_key_frame", "C02_frame_example",
+            "C02_image_string_key_frame", "C02_image_bool_key_frame", "C02_network_string_key_frame", "C02_network_bool_key_frame",
+            "C02_network_list_key_frame", "C02_pod_string_key_frame", "C02_pod_list_key_frame", "C02_pod_frame_example", "C02_network_frame_example"]
 
 VALUES = ["v", "a b", "x=y", "p:q", "c,d", "%n", "é", "it's", 'say "hi"', "back\\slash", "tab\there", "-dash", "$X", "a  b", "\U0001F600", "UPPER", "[br]", "#h"]
 SUBCOMMAND = {"container": ["run"], "pod": ["pod", "create"], "volume": ["volume", "create"], "network": ["network", "create"], "kube": ["kube", "play"],
@@ -34,6 +36,30 @@ def inventory(ctx):
         if d is None or d != ("str", "--health-" + suffix):
             bad.append("health %s" % k)
     ctx.oblig("regenerated (key, option) tables of convert.rs = documented options (tools/docs.py)", not bad, "; ".join(bad))
+    # read-site inventory: every key the Rust converters look up by a literal name is a key literal of the converter model
+    import gen_tables, re
+    reads = set()
+    for path in ("src/quadlet/convert.rs", "src/quadlet/mod.rs"):
+        toks = gen_tables.nontest_tokens(path)
+        for k, t in enumerate(toks):
+            if t[0] == "id" and (t[1].startswith("lookup") or t[1] == "has_key") and toks[k + 1] == ("p", "("):
+                j, depth, key = k + 2, 1, None
+                while depth and j < len(toks):
+                    if toks[j] == ("p", "("):
+                        depth += 1
+                    elif toks[j] == ("p", ")"):
+                        depth -= 1
+                    elif depth == 1 and toks[j][0] == "str" and key is None:
+                        key = toks[j][1]
+                    j += 1
+                if key:
+                    reads.add(key)
+    msrc = "".join(open(os.path.join(vlib.COQ, "Model", f)).read() for f in ("Convert.v", "Names.v", "Links.v"))
+    mkeys = set(re.findall(r'\((?:L|s2l) "([A-Za-z0-9]+)"\)', msrc))
+    table_keys = {k for tn, pairs in T["pair_tables"].items() for k, _ in pairs}
+    missing = sorted(reads - mkeys - table_keys)
+    ctx.oblig("read-site inventory: the %d keys that convert.rs / mod.rs look up by a literal name are all read by the converter model" % len(reads),
+              not missing and len(reads) > 60, "looked up in the source, absent from the model: %s" % missing)
 
 
 def spell_whole(rng, v):
